@@ -59,7 +59,9 @@ pub trait BottomUpBuilder<'a, Ptr: DDNNFPtr> {
             self.shape2(r), // #C02
             forall|env: Env| #![trigger tr(env)] #![trigger r.sem(env)] tr(env) ==> r.sem(env) == (env(label.0) == polarity); // #SEM
 
-    fn eq(&'a self, a: Ptr, b: Ptr) -> bool;
+    /// the builder's equality test is the pointer type's `==` (for BddPtr: pointer identity, A-ptreq)
+    fn eq(&'a self, a: Ptr, b: Ptr) -> (r: bool)
+        ensures r == a.eq_spec(&b); // #C02
 
     fn and(&'a self, a: Ptr, b: Ptr) -> (r: Ptr)
         requires self.bu_inv(), self.ok(a), self.ok(b),
